@@ -9,6 +9,8 @@ from .proj import cps
 
 UNITS = ("year", "month", "week", "day", "hour", "minute", "second")
 CATS = ("zero", "one", "two", "few", "many", "other")
+BIG_COUNTS = (1001, 1002, 1011, 1100, 2000, 10000, 100000, 1000000, 1000001, 2000000, 3000000, 1234567, 10000000, 1000000000,
+              2000000000, 999999, 1000002, 1000011, 1000021, 1000100)
 
 
 def names():
@@ -65,6 +67,7 @@ def export(name):
         "ord_suffix": _bycat(g("custom.ordinal")),
         "ord_cat": [_cat(loc.ordinal, n) for n in range(0, 401)],
         "plural_cat": [_cat(loc.plural, n) for n in range(0, 1001)],
+        "plural_big": [[n, _cat(loc.plural, n)] for n in BIG_COUNTS],
         "units": {u: _bycat(g("translations.units.%s" % u)) for u in UNITS},
         "relative": {u: {"future": _bycat(g("translations.relative.%s.future" % u)),
                          "past": _bycat(g("translations.relative.%s.past" % u))} for u in UNITS},
